@@ -342,6 +342,9 @@ class AsyncBaseClient:
         except json.JSONDecodeError as exc:
             raise GraphQLClientInvalidMessageFormat(message=message) from exc
 
+        if not isinstance(message_dict, dict):
+            raise GraphQLClientInvalidMessageFormat(message=message)
+
         type_ = message_dict.get("type")
         payload = message_dict.get("payload", {})
 
